@@ -171,15 +171,15 @@ class ExprBinModel(ExprModel):
         return (self.lhs.is_signed() and self.rhs.is_signed())
     
     def width(self):
-        if not self._width_valid:
-            if self.op in (BinExprType.Eq, BinExprType.Ge, BinExprType.Le,
-                           BinExprType.Gt, BinExprType.Lt, BinExprType.Ne):
-                self._width = 1
-            else:
-                lhs_w = self.lhs.width()
-                rhs_w = self.rhs.width()
-                self._width = lhs_w if lhs_w > rhs_w else rhs_w
-            self._width_valid = True
+        # Not cached: the width of an operand can change between 
+        # calls (e.g. the sum of a list that has grown)
+        if self.op in (BinExprType.Eq, BinExprType.Ge, BinExprType.Le,
+                       BinExprType.Gt, BinExprType.Lt, BinExprType.Ne):
+            self._width = 1
+        else:
+            lhs_w = self.lhs.width()
+            rhs_w = self.rhs.width()
+            self._width = lhs_w if lhs_w > rhs_w else rhs_w
         return self._width
     
     def __str__(self):
